@@ -873,12 +873,17 @@ class Overlay(Widget, WidgetContainerMixin, WidgetContainerListContentsMixin, ty
         left, right, top, bottom = self.calculate_padding_filler(real_size, focus)
         bottom_c = self.bottom_w.render(real_size)
         if not bottom_c.cols() or not bottom_c.rows():
-            return CompositeCanvas(bottom_c)
+            # top_w was asked for its size (pack()/rows()) but is not drawn: depend on it explicitly
+            canv = CompositeCanvas(bottom_c)
+            canv.set_depends([self.top_w, self.bottom_w])
+            return canv
 
         top_size = self.top_w_size(real_size, left, right, top, bottom)
         if 0 in top_size:
             # nothing of top_w is visible (e.g. a relative height that rounds down to no rows)
-            return CompositeCanvas(bottom_c)
+            canv = CompositeCanvas(bottom_c)
+            canv.set_depends([self.top_w, self.bottom_w])
+            return canv
 
         top_c = self.top_w.render(top_size, focus)
         top_c = CompositeCanvas(top_c)
